@@ -86,12 +86,39 @@ def respell(rng, text):
     return "".join(out) + rest
 
 
+def sdist_bytes(name, version, requires, analysable=True):
+    """a source distribution: with a setup.py the analyser can run, or (not analysable) with a pyproject.toml only"""
+    import io as _io
+    import tarfile
+    top = "%s-%s" % (name.replace("-", "_"), version)
+    buf = _io.BytesIO()
+    with tarfile.open(fileobj=buf, mode="w:gz") as tf:
+        def add(rel, text):
+            data = text.encode()
+            ti = tarfile.TarInfo(top + "/" + rel)
+            ti.size = len(data)
+            ti.mtime = 0
+            tf.addfile(ti, _io.BytesIO(data))
+        if analysable:
+            plain = [r for r in requires if "extra ==" not in r]
+            add("setup.py", "from setuptools import setup\nsetup(name=%r, version=%r, install_requires=%r)\n" % (name, version, plain))
+        else:
+            add("pyproject.toml", "[build-system]\nrequires = []\nbuild-backend = 'nothing'\n")
+    return buf.getvalue()
+
+
 def materialise(case, d):
     files = {}
+    sd = [tuple(x) for x in case.get("sdists", [])]
     for n, vs in case["universe"].items():
         for v, reqs in vs.items():
+            if (n, v) in sd:
+                files["%s-%s.tar.gz" % (n.replace("-", "_"), v)] = sdist_bytes(n, v, reqs)
+                continue
             extras = sorted({e for r in reqs for e in (["x"] if 'extra == "x"' in r else []) + (["y"] if 'extra == "y"' in r else [])})
             files[B.wheel_name(n, v)] = B.wheel_bytes(n, v, requires=reqs, extras=extras)
+    for n, v in case.get("broken_sdists", []):
+        files["%s-%s.tar.gz" % (n.replace("-", "_"), v)] = sdist_bytes(n, v, [], analysable=False)
     B.write_findlinks(os.path.join(d, "links"), files)
 
 
@@ -167,6 +194,14 @@ class CliVariants(Stream):
         case["constraints"] = []
         other = SS.gen_universe(rng, "dag")
         case["history"] = {"universe": other["universe"], "inputs": other["inputs"]}
+        if rng.random() < 0.35:
+            # one distribution comes as a source archive; the earlier compile of the history meets a file of the very
+            # same name, in another directory, that cannot be analysed
+            n = rng.choice(sorted(case["universe"]))
+            v = max(case["universe"][n], key=GL.V)
+            if not any("extra ==" in r for r in case["universe"][n][v]):
+                case["sdists"] = [[n, v]]
+                case["history"] = {"universe": {}, "inputs": [[n]], "broken_sdists": [[n, v]]}
         case["vseed"] = rng.randint(1, 10 ** 6)
         return case
 
@@ -219,6 +254,8 @@ class CliVariants(Stream):
 
     def flags(self, case, r):
         fl = ["shape:" + case["shape"], "exit:%s" % r["base"]["code"]]
+        if case.get("sdists"):
+            fl.append("source-archive-and-same-named-broken-one-in-history")
         if len(case["inputs"]) > 1:
             fl.append("two-input-files")
         if any(len(rs) > 1 for rs in case["inputs"]):
